@@ -91,9 +91,11 @@ func (e *Stack) Push(err error) {
 		// do stack separately, so we don't build the list and
 		// can merge more effectively (we do throw away the
 		// Stack wrapper objects for consistency with counts.)
-		for werr != nil {
+		// The oldest member goes first so that the members
+		// keep their relative order in this stack.
+		if werr != nil {
+			e.Push(werr.next)
 			e.Push(werr.err)
-			werr = werr.next
 		}
 	case interface{ Unwind() []error }:
 		// unwind over unwrap, given that Unwind is our
